@@ -99,6 +99,26 @@ func init() {
 				out["ea_used"], out["ia_used"] = eaUsed, iaUsed
 			}()
 		}
+		// an algorithm the library does not implement (128-NEA3 / 128-NIA3): the UE advertises it alone, so it must not send
+		// anything "protected" at all (whatever it sent would use an algorithm it did not advertise)
+		if (num(in, "ea") == 3 && num(in, "ia") >= 1 && num(in, "ia") <= 2) || (num(in, "ia") == 3 && num(in, "ea") <= 2) {
+			func() {
+				defer func() {
+					if r := recover(); r != nil {
+						out["later_panic"] = fmt.Sprint(r)
+					}
+				}()
+				for j := range ue.KnasInt {
+					ue.KnasInt[j], ue.KnasEnc[j] = byte(j+1), byte(0x80+j)
+				}
+				for _, hdr := range []uint8{nas.SecurityHeaderTypeIntegrityProtectedAndCiphered, nas.SecurityHeaderTypeIntegrityProtectedAndCipheredWithNew5gNasSecurityContext} {
+					pkt, err := tglib.EncodeNasPduWithSecurity(ue, nasTestpacket.GetRegistrationComplete(nil), hdr, true, true)
+					if err == nil {
+						out["later_sent"] = hx(pkt)
+					}
+				}
+			}()
+		}
 		return out
 	}
 }
